@@ -96,6 +96,93 @@ func GosymH_C08_file() {
 	gosym_Reach("done")
 }
 
+// GosymH_C08_handles: two read-write handles on one file that starts with two stored segments; every handle keeps
+// its own offset (the harness seeks only when the solver says so), so a handle's cached segment position has to
+// survive -- or be invalidated by -- what the other handle does to the segment list.  After every operation the
+// bytes returned, the resulting offsets (observed through Seek(0, SeekCurrent)), size and content equal the
+// byte-array model with one offset per handle.
+func GosymH_C08_handles() {
+	maxBlockSize = 2 + gosym_Choice("blocksize", gosym_Param("maxblock", 2))
+	nops := gosym_Param("ops", 3)
+	maxOff := gosym_Param("maxoff", 4)
+	lastSeek := gosym_Param("lastseek", 0) == 1
+	kc := gosymNewKeep()
+	b1, b2 := gosym_Bytes("stored1", 3, "any"), gosym_Bytes("stored2", 2, "any")
+	kc.blocks["00000000000000000000000000000001+3"] = b1
+	kc.blocks["00000000000000000000000000000002+2"] = b2
+	coll := &Collection{ManifestText: ". 00000000000000000000000000000001+3 00000000000000000000000000000002+2 1:4:f\n"}
+	model := append(append([]byte{}, b1[1:]...), b2...)
+	fs, err := coll.FileSystem(nil, kc)
+	gosym_Assert(err == nil, "filesystem-created")
+	var fh [2]File
+	var pos [2]int
+	for i := range fh {
+		fh[i], err = fs.OpenFile("f", os.O_RDWR, 0644)
+		gosym_Assert(err == nil, "open-rdwr")
+		if err != nil {
+			return
+		}
+	}
+	for op := 0; op < nops; op++ {
+		tag := string(rune('0' + op))
+		h := 1
+		if op > 0 { // the two handles start out alike, so the first operation goes to handle 1
+			h = gosym_Choice("handle"+tag, 2)
+		}
+		if (op < nops-1 || lastSeek || nops == 1) && gosym_Fork("seek"+tag) {
+			off := gosym_Choice("off"+tag, maxOff+1)
+			got, serr := fh[h].Seek(int64(off), io.SeekStart)
+			gosym_Assert(serr == nil && got == int64(off), "seek")
+			pos[h] = off
+		}
+		ln := 1 + gosym_Choice("len"+tag, 2)
+		if gosym_Fork("write" + tag) {
+			data := gosym_Bytes("data"+tag, ln, "any")
+			n, werr := fh[h].Write(data)
+			gosym_Assert(werr == nil && n == ln, "write-accepts-all-bytes")
+			for len(model) < pos[h]+ln {
+				model = append(model, 0)
+			}
+			copy(model[pos[h]:], data)
+			pos[h] += ln
+		} else {
+			buf := make([]byte, ln)
+			n, rerr := io.ReadFull(fh[h], buf)
+			want := 0
+			if pos[h] < len(model) {
+				want = len(model) - pos[h]
+				if want > ln {
+					want = ln
+				}
+			}
+			gosym_Assert(n == want, "read-length")
+			if n == want && n > 0 {
+				gosym_Assert(gosym_BytesEq(buf[:n], model[pos[h]:pos[h]+n]), "read-returns-model-bytes-at-the-handle's-own-offset")
+			}
+			gosym_Assert(rerr == nil || rerr == io.EOF || rerr == io.ErrUnexpectedEOF, "read-error-kind")
+			pos[h] += want
+		}
+		for i := range fh {
+			cur, cerr := fh[i].Seek(0, io.SeekCurrent)
+			gosym_Assert(cerr == nil && cur == int64(pos[i]), "handle-offset-equals-model")
+		}
+		// size and whole content, observed through a third handle so that the two handles' positions stay as they are
+		f3, oerr := fs.Open("f")
+		gosym_Assert(oerr == nil, "open-readonly")
+		if oerr == nil {
+			st, serr := f3.Stat()
+			gosym_Assert(serr == nil && st.Size() == int64(len(model)), "size-equals-model")
+			all := make([]byte, len(model)+2)
+			n, _ := io.ReadFull(f3, all)
+			gosym_Assert(n == len(model), "content-length-equals-model")
+			if n == len(model) {
+				gosym_Assert(gosym_BytesEq(all[:n], model), "content-equals-model")
+			}
+		}
+	}
+	gosym_Reach("done")
+}
+
 // GosymH_C08_flags: every open-flag combination on an existing or missing file: the open fails exactly for a
 // missing path without O_CREATE and for an existing target with O_CREATE|O_EXCL; O_TRUNC empties the file;
 // writes go to the end with O_APPEND and to the handle offset otherwise; a read-only handle cannot write and a
